@@ -6,6 +6,8 @@ CONSTANTS
   Slices <- QSlices
   Sels <- QSels
   Items <- NoItems
+  SetSels <- NoSels
+  SetSlices <- NoSlices
   Ops <- ScriptOps
 INVARIANT Shape
 INVARIANT LenIsCalls
@@ -14,7 +16,9 @@ INVARIANT KTransparent
 INVARIANT RecordFaithful
 INVARIANT IthRecord
 INVARIANT NoAlias
+INVARIANT NullInert
 PROPERTY ArgUnchanged
 PROPERTY ConcatOrder
 PROPERTY IndexShape
+PROPERTY NullNeutral
 INVARIANT Emit
